@@ -23,6 +23,9 @@ typedef struct {
   char     sortlist[128];
   char     hosts_content[2048];
   char     hostaliases_content[512];
+  char     resolv_content[512];   /* empty: a comment only */
+  char     env_res_options[128];  /* empty: variable unset */
+  char     env_localdomain[128];
   int      use_server_state_cb;
   int      local_bind; /* 1: ares_set_local_ip4/ip6 + ares_set_local_dev */
 } app_cfg_t;
@@ -45,6 +48,12 @@ char *__wrap_getenv(const char *name)
   }
   if (!strcmp(name, "HOSTALIASES")) {
     return (char *)app_env_hostaliases;
+  }
+  if (!strcmp(name, "RES_OPTIONS") && app_cfg.env_res_options[0]) {
+    return app_cfg.env_res_options;
+  }
+  if (!strcmp(name, "LOCALDOMAIN") && app_cfg.env_localdomain[0]) {
+    return app_cfg.env_localdomain;
   }
   if (!strcmp(name, "LOCALDOMAIN") || !strcmp(name, "RES_OPTIONS") || !strcmp(name, "CARES_HOSTS") ||
       !strcmp(name, "CARES_MEMDEBUG") || !strcmp(name, "CARES_MEMLIMIT")) {
@@ -707,7 +716,7 @@ static int app_channel_init(void)
   struct ares_socket_functions_ex sf;
 
   memset(&o, 0, sizeof(o));
-  app_write_file(app_resolv, "# simnet\n");
+  app_write_file(app_resolv, app_cfg.resolv_content[0] ? app_cfg.resolv_content : "# simnet\n");
   app_write_file(app_hosts, app_cfg.hosts_content);
   if (app_cfg.hostaliases_content[0]) {
     app_write_file(app_aliases, app_cfg.hostaliases_content);
